@@ -495,6 +495,8 @@ def run(fx, tier):
     # dominated by  header bytes + Remaining Length <= capacity  (any arrangement of that linear inequality).
     frame_fit(fx, v)
     recovery_after_internal_disconnect(fx, v)
+    from c02 import shutdown_outcome_rule
+    shutdown_outcome_rule(fx, v, 'C19', 'R-CGRAPH')
     handshake_span_rule(fx, v, 'C19')
     iterator_outlives_move_rule(fx, v, 'C19')
     authenticator_present_rule(fx, v, 'C19')
